@@ -34,12 +34,13 @@
 #define SEQ_L (2 * NE + 1)
 
 /* time profiles: index by node id (samples first) */
-static const double h_time_profiles[5][MAXN] = {
+static const double h_time_profiles[6][MAXN] = {
     { 0, 0, 1, 2, 3, 4, 5, 6 },   /* strictly increasing internal nodes */
     { 0, 0, 1, 1, 2, 2, 3, 3 },   /* ties among internal nodes */
     { 0, 1, 1, 2, 3, 4, 5, 6 },   /* samples at different times; sample/internal tie */
     { -3, -3, -2, -1, 0, 1, 2, 3 }, /* negative times */
     { 0, 0, 0, 1, 2, 3, 4, 5 },   /* three nodes at time zero */
+    { 0, 0.25, 1.5, 2.25, 4.75, 5.5, 6.5, 7.25 }, /* fractional times (dyadic: exact in binary64) */
 };
 /* sample profiles: bit u set <=> node u is flagged as a sample */
 static const int h_sample_profiles[5] = {
